@@ -128,8 +128,9 @@ Proof.
 Qed.
 
 (* Fail-stop: a poisoned (or finished) rewriter changes nothing and emits nothing *)
-Theorem poisoned_is_inert r op : rw_poisoned r = true -> rw_ended r = false -> api_step ctl r op = (r, RPanicPoisoned).
-Proof. intros H1 H2. unfold api_step. rewrite H1, H2. reflexivity. Qed.
+Theorem poisoned_is_inert r op : rw_poisoned r = true -> rw_ended r = false ->
+  exists ended, api_step ctl r op = (mkRw (rw_stream r) true ended, RPanicPoisoned).
+Proof. intros H1 H2. unfold api_step. rewrite H1, H2. eexists; reflexivity. Qed.
 Theorem error_poisons r op r' e : rw_ended r = false -> rw_poisoned r = false -> api_step ctl r op = (r', RErr e) -> rw_poisoned r' = true.
 Proof.
   intros H1 H2. unfold api_step. rewrite H1, H2.
